@@ -9,6 +9,10 @@ is frac*pi with frac <= 0.95 (Itoh's condition by construction), wraps it, runs 
   (b) out - input is, on mask pixels, one constant plus integer multiples of 2*pi,
   (c) if the input was the (smooth) unwrapped field itself, out - input is one constant, no 2*pi's.
 
+Every array is handed over in a drawn memory layout (contiguous, Fortran-strided, strided / inner
+slices of a larger buffer, permuted 3-D view, stride-0 expand for an all-True mask): the result is a
+function of the values only, so the oracle does not change.
+
 The Poisson method is only run for "does not raise, finite, same shape"."""
 
 from __future__ import annotations
@@ -54,6 +58,83 @@ def _f(lo, hi):
 def _w():
     # signed weight of a term, bounded away from 0 (every drawn term contributes)
     return st.tuples(st.sampled_from([-1.0, 1.0]), _f(0.2, 1.0)).map(lambda t: t[0] * t[1])
+
+
+LAYOUTS_2D = ["c", "t", "fortran_np", "slice_step2", "slice_inner", "permute3d"]
+LAYOUTS_1D = ["c", "step2", "inner"]
+
+
+def _lay2():
+    return st.sampled_from(["c", "c"] + LAYOUTS_2D[1:])
+
+
+def _lay1():
+    return st.sampled_from(["c"] + LAYOUTS_1D)
+
+
+@st.composite
+def _layouts(draw, case):
+    """Memory layout of every array handed to quantem (same values, different strides)."""
+    if case["route"] == "bf":
+        case["bf_mask_layout"] = draw(_lay2())
+        case["vec_layout"] = draw(_lay1())
+        case["mask_bf_layout"] = draw(_lay1())
+    else:
+        case["layout"] = draw(_lay2())
+        if case["mask"] is not None:
+            case["mask_layout"] = draw(st.sampled_from(["c", "c"] + LAYOUTS_2D[1:] + ["expand"]))
+    return case
+
+
+def _garbage(torch, shape, dtype):
+    """Filler for the elements of the backing storage that are NOT part of the view."""
+    if dtype == torch.bool:
+        return torch.ones(shape, dtype=dtype)
+    return torch.full(shape, float("nan"), dtype=dtype)
+
+
+def _as_layout(torch, arr, layout):
+    """A tensor with exactly the values and shape of the numpy array `arr`, laid out as `layout`.
+    Returns (tensor, layout actually used)."""
+    base = torch.from_numpy(np.ascontiguousarray(arr).copy())
+    used = layout
+    if arr.ndim == 1:
+        n = arr.shape[0]
+        if layout == "step2":
+            big = _garbage(torch, (2 * n,), base.dtype)
+            big[::2] = base
+            t = big[::2]
+        elif layout == "inner":
+            big = _garbage(torch, (n + 2,), base.dtype)
+            big[1:-1] = base
+            t = big[1:-1]
+        else:
+            t, used = base, "c"
+    else:
+        H, W = arr.shape
+        if layout == "t":
+            t = base.t().contiguous().t()  # Fortran-like strides, same shape and values
+        elif layout == "fortran_np":
+            t = torch.from_numpy(np.asfortranarray(arr.copy()))
+        elif layout == "slice_step2":
+            big = _garbage(torch, (2 * H, 2 * W), base.dtype)
+            big[::2, ::2] = base
+            t = big[::2, ::2]
+        elif layout == "slice_inner":
+            big = _garbage(torch, (H, W + 2), base.dtype)
+            big[:, 1:-1] = base
+            t = big[:, 1:-1]
+        elif layout == "permute3d":
+            big = _garbage(torch, (W, 2, H), base.dtype)
+            big[:, 1, :] = base.t()
+            t = big.permute(2, 1, 0)[:, 1, :]
+        elif layout == "expand" and arr.dtype == bool and bool(arr.all()):
+            t = torch.ones((1, 1), dtype=torch.bool).expand(H, W)  # stride (0, 0)
+        else:
+            t, used = base, "c"
+    if tuple(t.shape) != tuple(arr.shape) or not torch.equal(t, base):
+        raise AssertionError("harness: layout %s changed the values" % layout)
+    return t, used
 
 
 @st.composite
@@ -174,7 +255,7 @@ def cases(draw, route="direct", masked=None, inputs=("wrapped",)):
             case["wrap_around"] = True
         case["bf_extra"] = draw(st.sampled_from(["same", "all", "dilate"]))
         case["amp_seed"] = draw(st.integers(0, 2**31 - 1))
-    return case
+    return draw(_layouts(case))
 
 
 @st.composite
@@ -248,7 +329,7 @@ def seam_cases(draw):
         case["pass_wrap_kw"] = draw(st.booleans())  # False: the real caller's form (default True)
         case["bf_extra"] = draw(st.sampled_from(["same", "all", "dilate"]))
         case["amp_seed"] = draw(st.integers(0, 2**31 - 1))
-    return case
+    return draw(_layouts(case))
 
 
 @st.composite
@@ -397,7 +478,11 @@ def check(ctx, case):
     route = case["route"]
     ctx.record(case, _nontrivial(case, B) and route != "poisson", _classes(case, B))
     H, W, mask, inm = B["H"], B["W"], B["mask"], B["inm"]
-    tmask = None if mask is None else torch.from_numpy(mask.copy())
+    lay = []
+    tmask = None
+    if mask is not None and route != "bf":
+        tmask, u = _as_layout(torch, mask, case.get("mask_layout", "c"))
+        lay.append("layout:mask=" + u)
 
     if route in ("direct", "poisson"):
         dt = np.dtype(case["dtype"])
@@ -416,7 +501,11 @@ def check(ctx, case):
                 # would only test float32 cancellation in the mean subtraction, not the property)
                 phi[~inm] = np.clip(phi[~inm], phi[inm].min(), phi[inm].max())
         phi = phi.astype(dt)
-        tphi = torch.from_numpy(phi.copy())
+        tphi, u = _as_layout(torch, phi, case.get("layout", "c"))
+        lay.append("layout:phi=" + u)
+        for c in lay:
+            ctx.count(c)
+        ctx.count("layout:any_noncontiguous" if any(not c.endswith("=c") for c in lay) else "layout:all_contiguous")
         if route == "poisson":
             with ctx.sut(case, "unwrap_phase_2d_torch(method='poisson')"):
                 out = iu.unwrap_phase_2d_torch(
@@ -451,12 +540,19 @@ def check(ctx, case):
         # the function only unwraps when the embedded phases span more than pi (classification only)
         ctx.count("bf:unwrap_branch_taken" if grid.max() - grid.min() > math.pi else "bf:phases_span<=pi_returned_as_is")
         kw = {"wrap_around": B["wrap"]} if case["pass_wrap_kw"] else {}
+        t_data, u1 = _as_layout(torch, data[bf], case.get("vec_layout", "c"))
+        t_mbf, u2 = _as_layout(torch, m[bf], case.get("mask_bf_layout", "c"))
+        t_bf, u3 = _as_layout(torch, bf, case.get("bf_mask_layout", "c"))
+        lay = ["layout:complex_data_bf=" + u1, "layout:mask_bf=" + u2, "layout:bf_mask=" + u3]
+        for c in lay:
+            ctx.count(c)
+        ctx.count("layout:any_noncontiguous" if any(not c.endswith("=c") for c in lay) else "layout:all_contiguous")
         what = "unwrap_bf_overlap_phase_torch(two_pass=%s%s)" % (case["two_pass"], ", wrap_around=%s" % B["wrap"] if kw else "")
         with ctx.sut(case, what):
             vec = dpu.unwrap_bf_overlap_phase_torch(
-                torch.from_numpy(data[bf]),
-                torch.from_numpy(m[bf]),
-                torch.from_numpy(bf.copy()),
+                t_data,
+                t_mbf,
+                t_bf,
                 method="reliability-sorting",
                 two_pass=case["two_pass"],
                 **kw,
